@@ -1111,6 +1111,52 @@ func opC10Rand(raw json.RawMessage, o *Out) {
 			q = s2.NewConvexHullQuery()
 			q.AddPolygon(pg)
 			c10EmitHull(rec, q.ConvexHull(), vs, "hull/polygon", desc)
+		case "meridian":
+			// a triangle with one edge whose endpoints lie on (nearly) opposite meridians, i.e. an edge
+			// passing through or within 1e-16 of a pole on either side, and the witnesses around that pole
+			lam := (rnd.Float64() - 0.5) * 2 * math.Pi
+			if rnd.Intn(3) == 0 {
+				lam = []float64{0, math.Pi / 2, math.Pi, -math.Pi / 2, math.Pi / 4}[rnd.Intn(5)]
+			}
+			eps := []float64{0, 1e-16, 2e-16, 4e-16, 1e-15, 1e-14, 1e-12, 1e-9, 1e-6}[rnd.Intn(9)] * float64(1-2*rnd.Intn(2))
+			sgn := float64(1 - 2*rnd.Intn(2)) // which pole
+			f1, f2 := sgn*(0.2+1.2*rnd.Float64()), sgn*(0.2+1.2*rnd.Float64())
+			if rnd.Intn(4) == 0 {
+				f1 = sgn * (math.Pi/2 - math.Pow(10, -float64(1+rnd.Intn(15))))
+			}
+			a := s2.PointFromLatLng(s2.LatLng{Lat: s1.Angle(f1), Lng: s1.Angle(math.Remainder(lam, 2*math.Pi))})
+			b := s2.PointFromLatLng(s2.LatLng{Lat: s1.Angle(f2), Lng: s1.Angle(math.Remainder(lam+math.Pi+eps, 2*math.Pi))})
+			side := float64(1 - 2*rnd.Intn(2))
+			cpt := s2.PointFromLatLng(s2.LatLng{Lat: s1.Angle(sgn * 0.8 * rnd.Float64()), Lng: s1.Angle(math.Remainder(lam+side*math.Pi/2, 2*math.Pi))})
+			vs := []s2.Point{a, b, cpt}
+			if s2.RobustSign(a, b, cpt) != s2.CounterClockwise {
+				vs = []s2.Point{b, a, cpt}
+			}
+			inner := c10Norm(a.Add(b.Vector).Add(cpt.Vector))
+			desc := fmt.Sprintf("triangle with an edge across the pole: a=latlng(%v,%v) b=latlng(%v,%v+pi%+g) c=%v (seed item %d)", f1, lam, f2, lam, eps, cpt, it)
+			wits := c10LoopWits(vs, inner, true)
+			pole := s2.Point{Vector: r3.Vector{X: 0, Y: 0, Z: sgn}}
+			wits = append(wits, c10Wit{p: pole, tag: "pole"})
+			for _, d := range []float64{1e-300, 1e-18, 1e-17, 1e-16, 1e-15, 1e-13, 1e-9} {
+				for k := 0; k < 8; k++ {
+					ang := lam + float64(k)*math.Pi/4
+					wits = append(wits, c10Wit{p: c10Norm(r3.Vector{X: d * math.Cos(ang), Y: d * math.Sin(ang), Z: sgn}), tag: "near-pole"})
+				}
+			}
+			// points of the polar edge next to the pole
+			t0 := (math.Pi/2 - math.Abs(f1)) / ((math.Pi/2 - math.Abs(f1)) + (math.Pi/2 - math.Abs(f2)))
+			for _, dt := range []float64{0, 1e-16, -1e-16, 1e-12, -1e-12, 1e-6, -1e-6} {
+				q := s2.Interpolate(t0+dt, a, b)
+				wits = append(wits, c10Wit{p: q, tag: "polar-edge"})
+				wits = append(wits, c10Ulps(q, "polar-edge")...)
+			}
+			rec.emit(c10LoopRegion(s2.LoopFromPoints(c10Clone(vs)), "loop/meridian", desc), wits)
+			li := s2.LoopFromPoints(c10Clone(vs))
+			li.Invert()
+			rec.emit(c10LoopRegion(li, "loop/meridian/Invert()", desc+" inverted"), wits)
+			rec.emit(c10LoopRegion(s2.LoopFromPoints(c10Rev(vs)), "loop/meridian/reversed", desc+" reversed"), wits)
+			pl := s2.Polyline{a, b}
+			c10EmitPolyline(rec, &pl, "polyline/meridian", desc)
 		case "polyline":
 			n := 2 + rnd.Intn(6)
 			var vs []s2.Point
